@@ -6,7 +6,7 @@ import ast
 from ..cfg import CFG
 from ..consteval import ConstEval
 from ..core import AnalysisError, own_nodes, parent, short, unparse
-from ..rules import dsp, exa, nul
+from ..rules import lint, dsp, exa, nul
 from . import common
 
 EXPLANATION = (
@@ -170,4 +170,11 @@ def run(ctx):
   src = nul.NullSources(call_names={"get_caption_to_process"}, getter_paths={"get_caption_to_process()"})
   nt = nul.check_sources(ctx, common.funcs(ctx, ["ttconv.scc.context", "ttconv.scc.line"]), src, rule="NUL")
   ctx.floor("NUL", "dereferences of the caption to process", nt, 10)
+  # rows are displayed top to bottom whatever the order in which the PACs addressed them
+  nr = lint.set_iteration(ctx, common.mods(ctx, ["ttconv.scc.caption_paragraph", "ttconv.scc.context", "ttconv.scc.reader"]), rule="ORD-rows", what="row dictionary", unordered_attrs={"_caption_lines"},
+                          exempt={"ttconv.scc.caption_paragraph:SccCaptionParagraph.copy_lines": "copies the dictionary entry by entry under the same keys; every consumer of the copy sorts by row"})
+  cp = ctx.ix.cls("ttconv.scc.caption_paragraph:SccCaptionParagraph")
+  sorted_sites = [n for m_ in cp.methods.values() for n in own_nodes(m_.node) if isinstance(n, ast.Call) and unparse(n.func) == "sorted" and n.args and "_caption_lines" in unparse(n.args[0])]
+  ctx.check(len(sorted_sites) >= 2, "ORD-rows", f"{cp.qualname}|rows are read in row order", ctx.where(cp.module, cp.node), f"{len(sorted_sites)} sorted(...) reads of the row dictionary; {nr} tabled order-free iterations",
+            "the row dictionary is no longer read through sorted(...) where the order of rows matters")
   common.check_history_independence(ctx, [n for n in ctx.ix.modules if n.startswith("ttconv.scc")] + ["ttconv.time_code"])
